@@ -8,7 +8,7 @@
  *
  * Contract of KSI_TlvElement_detach(el) for a well-formed element tree (every node: leaf = payload at ptr + hdr_len of
  * dat_len octets whatever header form the old representation had - 0 (bare payload), 2 or a valid NON-CANONICAL 4;
- * nested = non-empty child list, its own hdr_len / dat_len possibly stale as the API leaves them; buffers owned or borrowed):
+ * nested = element with a child list (possibly EMPTY: then its payload is empty whatever its own, possibly stale, dat_len says), its own hdr_len / dat_len possibly stale as the API leaves them; buffers owned or borrowed):
  *   result KSI_OK, or KSI_OUT_OF_MEMORY exactly when the one allocation (of exactly the canonical size) failed;
  *   KSI_OK => with  pay(X) = dat_len (leaf) | sum of tot(child) (nested),  tot(X) = hdr(tag, pay) + pay,
  *             off(root) = 0, off(child_i of P) = off(P) + hdr(P) + sum_{j<i} tot(child_j):
@@ -108,7 +108,7 @@ static int dt_elementAt(KSI_LIST(KSI_TlvElement) *l, size_t pos, KSI_TlvElement 
 #include "tlv_element.c"
 
 /* ---- reference layout (spec/tlv.h) -------------------------------------------------------------------------------- */
-static int is_nested(size_t x) { return x == 0 ? (N0[0].subList != NULL && n_kids > 0) : (x >= 1 && x <= 3 && x - 1 == nest && x - 1 < n_kids && n_g > 0); }
+static int is_nested(size_t x) { return x == 0 ? (N0[0].subList != NULL) : (x >= 1 && x <= 3 && x - 1 == nest && x - 1 < n_kids && n_g > 0); }
 static size_t pay_g(size_t j) { return N0[4 + j].ftlv.dat_len; }
 static size_t tot_g(size_t j) { return j < n_g ? spec_tlv_enc_hdr_len(N0[4 + j].ftlv.tag, pay_g(j)) + pay_g(j) : 0; }
 static size_t pay_c(size_t i) { return is_nested(1 + i) ? tot_g(0) + tot_g(1) : N0[1 + i].ftlv.dat_len; }
@@ -185,7 +185,7 @@ void harness(void) {
 #endif
 	if (!root_list) n_kids = 0;
 	if (nest >= n_kids) { nest = 3; n_g = 0; }
-	mk_node(0, root_list && n_kids > 0);
+	mk_node(0, root_list);      /* an EXPANDED element consists of its children, also when there are none (fix in KSI_TlvElement_serialize: a stale declared length of such an element is not payload) */
 	mk_node(1, nest == 0 && n_g > 0); mk_node(2, nest == 1 && n_g > 0); mk_node(3, nest == 2 && n_g > 0);
 	mk_node(4, 0); mk_node(5, 0);
 	N[0].subList = root_list ? &L_root : NULL;
@@ -211,7 +211,7 @@ void harness(void) {
 		NODE_ASSERTS(1, "detach: child 0"); NODE_ASSERTS(2, "detach: child 1"); NODE_ASSERTS(3, "detach: child 2");
 		NODE_ASSERTS(4, "detach: grandchild 0"); NODE_ASSERTS(5, "detach: grandchild 1");
 		/* tiling, stated on what the nodes themselves report */
-		__CPROVER_assert(IMPLIES(is_nested(0), N[1].ptr == N[0].ptr + N[0].ftlv.hdr_len), "detach: the first child starts right behind the root's header");
+		__CPROVER_assert(IMPLIES(is_nested(0) && n_kids > 0, N[1].ptr == N[0].ptr + N[0].ftlv.hdr_len), "detach: the first child starts right behind the root's header");
 		__CPROVER_assert(IMPLIES(is_nested(0) && n_kids > 1, N[2].ptr == N[1].ptr + N[1].ftlv.hdr_len + N[1].ftlv.dat_len), "detach: child 1 starts where child 0 ends");
 		__CPROVER_assert(IMPLIES(is_nested(0) && n_kids > 2, N[3].ptr == N[2].ptr + N[2].ftlv.hdr_len + N[2].ftlv.dat_len), "detach: child 2 starts where child 1 ends");
 		__CPROVER_assert(IMPLIES(is_nested(0), N[n_kids].ptr + N[n_kids].ftlv.hdr_len + N[n_kids].ftlv.dat_len == N[0].ptr + N[0].ftlv.hdr_len + N[0].ftlv.dat_len), "detach: the last child ends with the root's payload");
